@@ -304,7 +304,7 @@ var propC05 = &h.Prop[C05Case]{ID: "C05", Rule: ruleC05, Gen: genC05, Check: che
 		if p == 0 {
 			p = c.X.P
 		}
-		return p > model.MaxPrec-3 && c.X.F == "f"
+		return p > model.MaxPrec-4 && c.X.F == "f" // (MaxPrec-3 takes the branch with guard digits: its working precision MaxPrec-1 wraps the same loop bound)
 	}}}
 
 func TestC05(t *testing.T)       { propC05.Search(t) }
